@@ -26,3 +26,12 @@ Proof. exact initial_vars_declares_every_option. Qed.
 Theorem C10_code_normalises_every_spelling : forall t ks ws,
   wf_t t -> SpellNAll t ks ws -> Forall (tok_ok t) ks -> normalize_options t ws = Some (map cstr ks).
 Proof. exact normalize_spelling. Qed.
+
+(* values are arbitrary text that does not start with a dash - a value that is a bracket or a bar
+   included (K48, fixed: such a value was also kept as a positional): `-o ]`, `--out=|` *)
+Theorem C10_bracket_values_are_values :
+  let t := [ {| od_kind := OWithParam None; od_short := Some "-o"; od_long := Some "--out" |} ] in
+  normalize_options t ["-o"; "]"; "x"] = Some ["--out=]"; "x"]
+  /\ normalize_options t ["--out=|"] = Some ["--out=|"]
+  /\ normalize_usage_words t ["["; "-o"; "]"; "x"] = Some ["["; "--out=]"; "]"; "x"].
+Proof. exact norm_bracket_value. Qed.
